@@ -4,6 +4,7 @@ R2.3 element-wise helpers, R2.4 cycle cut (= R1.2)."""
 from ..lib import facts, mir, paths
 from ..lib.mir import path_str, is_call, unref, is_adt_agg, agg_field
 from . import common_registry as cr
+from . import common_identity as ci
 
 LEVEL = "other"
 EXPLANATION = (
@@ -36,6 +37,8 @@ def run(chk, tier):
         prog = mir.Program(facts.load_mir(feats))
         check_config(chk, prog, prog.config)
         cr.check_register_type(chk, prog, prog.config, rule="R2.4")
+        # premise "the definition behind an id does not depend on which alias was met first"
+        ci.check_identities(chk, prog, prog.config)
     n = len({i["construct"] for i in chk.instances if i["rule"] == "R2.1" and i["construct"].startswith("impl:")})
     chk.floor("R2.1", n, 14, "IntoPortable impls counted by hand: 13 ADTs + &'static str")
     nf = len({i["construct"] for i in chk.instances if i["rule"] == "R2.1" and i["construct"].startswith("field:")})
